@@ -20,6 +20,7 @@ type RawManager struct {
 	nodes     []*RawNode
 	lookup    map[uint32]*RawNode
 	closeOnce sync.Once
+	closed    bool
 	logger    *log.Logger
 	opts      managerOptions
 	nextMsgID uint64
@@ -55,7 +56,12 @@ func NewRawManager(opts ...ManagerOption) *RawManager {
 }
 
 func (m *RawManager) closeNodeConns() {
-	for _, node := range m.nodes {
+	// nodes may be added concurrently (by the creation of a configuration); no node is added once closed is set
+	m.mu.Lock()
+	m.closed = true
+	nodes := append([]*RawNode(nil), m.nodes...)
+	m.mu.Unlock()
+	for _, node := range nodes {
 		err := node.close()
 		if err != nil && m.logger != nil {
 			m.logger.Printf("error closing: %v", err)
@@ -134,6 +140,13 @@ func (m *RawManager) AddNode(node *RawNode) error {
 
 	m.mu.Lock()
 	defer m.mu.Unlock()
+	if m.closed {
+		// the manager was closed while we were connecting to the node
+		if node.channel != nil {
+			_ = node.close()
+		}
+		return fmt.Errorf("config: manager closed")
+	}
 	if _, found := m.lookup[node.id]; found {
 		// the node was added concurrently after the check above
 		if node.channel != nil {
